@@ -13,12 +13,15 @@ class T(tuple):
     pass
 
 
-ENV = {"now": 1000000, "tab": None}
+# An instant is (epoch, isdst): the C functions differ in the tm_isdst they report (gmtime: 0,
+# strptime and datetime.timetuple(): -1) and struct_time comparison sees it at equal seconds.
+# "tz" = seconds east of UTC of the process's local time zone (mktime/localtime only).
+ENV = {"now": 1000000, "tab": None, "tz": 0}
 
 
 class FakeTime:
     def gmtime(self, secs=None):
-        return T((ENV["now"] if secs is None else secs,))
+        return T((ENV["now"] if secs is None else secs, 0))
 
     def time(self):
         return ENV["now"]
@@ -26,20 +29,22 @@ class FakeTime:
     def strptime(self, s, fmt):
         tab = ENV.get("tab")
         if tab is not None and isinstance(s, str) and s in tab:
-            return T((tab[s],))
+            return T((tab[s], -1))
         if not (isinstance(s, str) and s[:1] == "@"):
             raise ValueError("time data does not match format")
-        return T((int(s[1:]),))
+        return T((int(s[1:]), -1))
 
     def strftime(self, fmt, t=None):
         e = ENV["now"] if t is None else t[0]
         return "@" + str(e)
 
     def mktime(self, t):
-        return t[0]
+        # interprets the broken-down time as *local* time
+        return t[0] - ENV["tz"]
 
     def localtime(self, s=None):
-        return self.gmtime(s)
+        e = ENV["now"] if s is None else s
+        return T((e + ENV["tz"], 0))
 
 
 class FakeCal:
@@ -58,10 +63,10 @@ class FakeDT:
         return FakeDT(self.e - d.days * 86400 - d.seconds)
 
     def timetuple(self):
-        return T((self.e,))
+        return T((self.e, -1))
 
     def utctimetuple(self):
-        return T((self.e,))
+        return T((self.e, 0))
 
     def strftime(self, fmt):
         return "@" + str(self.e)
@@ -96,9 +101,16 @@ def install():
             m.calendar = fc
 
 
-def set_clock(now, tab=None):
+def set_clock(now, tab=None, tz=0):
     ENV["now"] = now
     ENV["tab"] = tab
+    ENV["tz"] = tz
+    if _REAL["installed"]:
+        # replay mode: the real C functions with a real time zone of that offset
+        import os
+        h = tz // 3600
+        os.environ["TZ"] = "VRF%+d" % (-h) if h else "UTC"
+        _rt.tzset()
 
 
 # --------------------------------------------------------------------------------------------
@@ -118,10 +130,10 @@ class FrozenTime:
         return _rt.gmtime(ENV["now"] if secs is None else secs)
 
     def localtime(self, secs=None):
-        return _rt.gmtime(ENV["now"] if secs is None else secs)
+        return _rt.localtime(ENV["now"] if secs is None else secs)
 
     def mktime(self, t):
-        return _rc.timegm(t)
+        return _rt.mktime(t)
 
     def time(self):
         return float(ENV["now"])
@@ -141,8 +153,12 @@ class FrozenDT:
         return _rd.datetime(*a, **k)
 
 
+_REAL = {"installed": False}
+
+
 def install_real():
     import importlib
+    _REAL["installed"] = True
     ft = FrozenTime()
     from saml2_tophat import time_util
     time_util.time = ft
